@@ -697,6 +697,7 @@ class VM:
         elif op == OpCode.RETURN:
             result = self.stack.pop() if self.stack else UNDEFINED
             popped_frame = self.call_stack.pop()
+            self._discard_frame_state(popped_frame)
             # For constructor calls, return the new object unless result is an object
             if popped_frame.is_constructor_call:
                 if not isinstance(result, JSObject):
@@ -705,6 +706,7 @@ class VM:
 
         elif op == OpCode.RETURN_UNDEFINED:
             popped_frame = self.call_stack.pop()
+            self._discard_frame_state(popped_frame)
             # For constructor calls, return the new object
             if popped_frame.is_constructor_call:
                 self.stack.append(popped_frame.new_target)
@@ -2518,6 +2520,18 @@ class VM:
             self.stack.append(result)
         else:
             raise JSTypeError(f"{constructor} is not a constructor")
+
+    def _discard_frame_state(self, frame: CallFrame) -> None:
+        """Drop what a returning frame left behind.
+
+        A return from inside a loop, switch, try block or a partly evaluated
+        expression leaves iterators, discriminants, operands and handlers of
+        the returning frame; none of them may survive into the caller.
+        """
+        del self.stack[frame.bp :]
+        depth = len(self.call_stack)
+        while self.exception_handlers and self.exception_handlers[-1][0] >= depth:
+            self.exception_handlers.pop()
 
     def _get_source_location(self) -> Tuple[Optional[int], Optional[int]]:
         """Get the source location (line, column) for the current instruction."""
